@@ -370,9 +370,10 @@ Proof.
     + rewrite (decide_user_exact i A es o Ho). apply eqb_reflx.
     + destruct es as [|e es]; [reflexivity|]. cbn [is_empty]. rewrite orb_false_r.
       unfold decide. cbn [forallb]. rewrite (synch_entry_denied i A o e Ho). reflexivity.
-  - intros H. apply andb_true_iff in H as [H1 H2].
-    destruct res; cbn [sres_ok orb] in *; try exact H1.
-    destruct (decide i A es o) eqn:Hd; [|discriminate].
+  - intros H.
+    destruct (sres_ok res || negb unchanged) eqn:Hs; [|reflexivity].
+    destruct (decide i A es o) eqn:Hd.
+    2:{ apply andb_true_iff in H as [H1 H2]. subst unchanged. destruct res; discriminate. }
     destruct (i_origin i) eqn:Ho; try reflexivity.
     + rewrite <- (decide_user_exact i A es o Ho). exact Hd.
     + destruct es as [|e es]; [reflexivity|].
